@@ -352,9 +352,21 @@ func (w *c10World) apply(r *Rec, op string) string {
 		fork := int64(-1)
 		if stored {
 			fork = w.forkHeight(parent)
-			live = before.hasCons && fork >= int64(before.consLo)
+			// the walk of RestrictChain needs the children of the fork point on both branches; pruning removes the
+			// main-branch header at the lowest kept consensus state when that state has expired at this update
+			line := int64(before.consLo)
+			if lo, ok := before.cons[before.consLo]; ok {
+				if t, _ := strconv.ParseUint(lo[1], 10, 64); t+w.trusting < now {
+					line++
+				}
+			}
+			live = before.hasCons && fork >= 0 && fork+1 >= line
+			if live && fork+1 == line && broken == "" {
+				r.Count("valid.fork-exactly-at-prune-line")
+			}
 		}
 		must := stored && broken == "" && active && live
+		belowLine := stored && broken == "" && active && !live
 		res, msg := w.submit(h, now, f[0] == "upd")
 		kind := "extension"
 		if parent != nil && parent.Hash != w.head {
@@ -390,6 +402,17 @@ func (w *c10World) apply(r *Rec, op string) string {
 			}
 			r.Find(Finding{Sig: sig, What: fmt.Sprintf("valid child (height %d) of the stored header %x (fork height %d, lowest consensus state %d) is rejected: %s", h.Number, parent.Hash[:4], fork, before.consLo, msg),
 				Ops: w.histCopy(), Obs: res + ": " + msg, Req: "accepted (never_wedged)"})
+		}
+		if belowLine {
+			if res != "ok" {
+				// KNOWN FINDING (docs/C10.md): the header is still in the index (side-branch entries are never pruned) but the
+				// head's branch has been pruned past the fork point, so RestrictChain cannot find the common parent
+				r.Count("below-line.rejected")
+				r.Find(Finding{Sig: "C10:valid-child-rejected:fork-below-prune-line", What: fmt.Sprintf("valid child (height %d) of the still stored side-branch header %x is rejected: its branch forks from the head's ancestry at height %d, below the prune line (lowest consensus state %d): %s", h.Number, parent.Hash[:4], fork, before.consLo, msg),
+					Ops: w.histCopy(), Obs: res + ": " + msg, Req: "accepted (never_wedged, as literally stated)"})
+			} else {
+				r.Count("below-line.accepted")
+			}
 		}
 		if res == "ok" && (!stored || broken != "") {
 			r.Find(Finding{Sig: "C10:accepted-invalid:" + broken, What: "accepted header violates rule " + broken + " (or its parent is not stored)", Ops: w.histCopy(), Obs: "accepted", Req: "rejected (accept_sound)"})
@@ -744,6 +767,23 @@ func (g *c10Gen) witnessRoot() []string {
 		c10Op("upd", now, a3), c10Op("upd", now, b2), c10Op("probe", now, g.child(b2, 1)), c10Op("probe", now, g.child(a3, 1))}
 }
 
+// fork below the prune line: G <- B1 (side, never pruned), G <- A1 <- A2 <- A3 <- A4; G and A1 get pruned; then B2 child of B1
+func (g *c10Gen) witnessPrune() []string {
+	t0 := uint64(1700000000)
+	gen := g.genesis(300, t0)
+	b1 := g.child(gen, 12)
+	a1 := g.child(gen, 10)
+	a2 := g.child(a1, 10)
+	a3 := g.child(a2, 10)
+	a4 := g.child(a3, 10)
+	a5 := g.child(a4, 10)
+	b2 := g.child(b1, 40)
+	return []string{g.reset(4, 50, gen), c10Op("upd", t0+15, b1), c10Op("upd", t0+15, a1), c10Op("upd", t0+25, a2), c10Op("upd", t0+35, a3),
+		c10Op("upd", t0+55, a4), // prunes height 300 (G)
+		c10Op("upd", t0+65, a5), // prunes height 301 (A1); B1 stays in the index
+		c10Op("probe", t0+65, b2), c10Op("probe", t0+65, g.child(a5, 5)), c10Op("probe", t0+65, g.child(a3, 35))}
+}
+
 // recorded main-net headers (chain id 1): PoW and difficulty mutations
 func (g *c10Gen) mainnetHistory(nValid int, muts []string) []string {
 	bz, err := os.ReadFile(c10RepoDir() + "/x/xibc/clients/light-clients/eth/types/testdata/update_headers.json")
@@ -850,6 +890,7 @@ func TestC10(t *testing.T) {
 	}
 	run(g.witness())
 	run(g.witnessRoot())
+	run(g.witnessPrune())
 	thorough := r.Tier == "thorough"
 	// 1. every tree shape with every parent-before-child order, full probing after every step
 	maxN := 4
